@@ -248,6 +248,8 @@ struct Parser {
     pos: usize,
     /// Current nesting depth of expressions and types (the parser is recursive)
     depth: usize,
+    /// Depth of the type built by the most recent call of one of the type parsers
+    last_type_depth: usize,
 }
 
 /// Expressions and types nested deeper than this are refused instead of
@@ -260,6 +262,7 @@ impl Parser {
             tokens,
             pos: 0,
             depth: 0,
+            last_type_depth: 0,
         }
     }
 
@@ -275,8 +278,9 @@ impl Parser {
         Ok(())
     }
 
-    /// Fail if a type nested `extra` levels below the current depth would be too deep.
-    /// (Chains of `?`, `+` and `*` are parsed by loops but build nested types.)
+    /// Fail if a type of depth `extra`, built at the current parser depth, would be too deep.
+    /// (Chains of `?`, `+` and `*` are parsed by loops but build nested types, and the depths
+    /// of parenthesised operands add up.)
     fn check_nesting(&self, extra: usize) -> Result<(), ErrorSet> {
         if self.depth + extra > MAX_NESTING {
             return Err(ErrorSet::single(
@@ -707,15 +711,13 @@ fn parse_type(p: &mut Parser) -> Result<Option<Type>, ErrorSet> {
 
 fn parse_type_inner(p: &mut Parser) -> Result<Option<Type>, ErrorSet> {
     let mut lhs = parse_type_postfix(p)?;
-    let mut n_ops = 0;
+    let mut lhs_depth = p.last_type_depth;
     loop {
-        if p.peek() == Some(&Token::Plus) || p.peek() == Some(&Token::Star) {
-            n_ops += 1;
-            p.check_nesting(n_ops)?;
-        }
         if p.peek() == Some(&Token::Plus) {
             p.advance();
             let rhs = parse_type_postfix(p)?;
+            lhs_depth = lhs_depth.max(p.last_type_depth) + 1;
+            p.check_nesting(lhs_depth)?;
             lhs = lhs
                 .zip(rhs)
                 .map(|(l, r)| Type::Sum(Box::new(l), Box::new(r)));
@@ -724,6 +726,8 @@ fn parse_type_inner(p: &mut Parser) -> Result<Option<Type>, ErrorSet> {
         if p.peek() == Some(&Token::Star) {
             p.advance();
             let rhs = parse_type_postfix(p)?;
+            lhs_depth = lhs_depth.max(p.last_type_depth) + 1;
+            p.check_nesting(lhs_depth)?;
             lhs = lhs
                 .zip(rhs)
                 .map(|(l, r)| Type::Product(Box::new(l), Box::new(r)));
@@ -731,6 +735,7 @@ fn parse_type_inner(p: &mut Parser) -> Result<Option<Type>, ErrorSet> {
         }
         break;
     }
+    p.last_type_depth = lhs_depth;
     Ok(lhs)
 }
 
@@ -738,17 +743,20 @@ fn parse_type_inner(p: &mut Parser) -> Result<Option<Type>, ErrorSet> {
 /// which is how complete types are displayed
 fn parse_type_postfix(p: &mut Parser) -> Result<Option<Type>, ErrorSet> {
     let mut ty = parse_type_atom(p)?;
-    let mut n_ops = 0;
+    let mut depth = p.last_type_depth;
     while p.eat(&Token::Question) {
-        n_ops += 1;
-        p.check_nesting(n_ops)?;
+        depth += 1;
+        p.check_nesting(depth)?;
         ty = ty.map(|inner| Type::Sum(Box::new(Type::One), Box::new(inner)));
     }
+    p.last_type_depth = depth;
     Ok(ty)
 }
 
 /// Parse a type atom
 fn parse_type_atom(p: &mut Parser) -> Result<Option<Type>, ErrorSet> {
+    // a leaf; a parenthesised type overwrites this with its own depth
+    p.last_type_depth = 0;
     match p.peek().cloned() {
         Some(Token::One) => {
             p.advance();
